@@ -64,6 +64,7 @@ struct task_proxy : public d1::task {
     inline task* extract_task () {
         // __TBB_ASSERT( prefix().extra_state == es_task_proxy, "Normal task misinterpreted as a proxy?" );
         intptr_t tat = task_and_tag.load(std::memory_order_acquire);
+        __TBB_VERIF_POINT(vp_proxy_extract, this, from_bit * 10 + 2);
         __TBB_ASSERT( tat == from_bit || (is_shared(tat) && task_ptr(tat)),
             "Proxy's tag cannot specify both locations if the proxy "
             "was retrieved from one of its original locations" );
@@ -73,10 +74,12 @@ struct task_proxy : public d1::task {
             // cleaner_bit specifying entity responsible for its eventual freeing.
             // Explicit cast to void* is to work around a seeming ICC 11.1 bug.
             if ( task_and_tag.compare_exchange_strong(tat, cleaner_bit) ) {
+                __TBB_VERIF_POINT(vp_proxy_extract, this, from_bit * 10 + 1);
                 // Successfully grabbed the task, and left new owner with the job of freeing the proxy
                 return task_ptr(tat);
             }
         }
+        __TBB_VERIF_POINT(vp_proxy_extract, this, from_bit * 10);
         // Proxied task has already been claimed from another proxy location.
         __TBB_ASSERT( task_and_tag.load(std::memory_order_relaxed) == from_bit, "Empty proxy cannot contain non-zero task pointer" );
         return nullptr;
@@ -129,9 +132,11 @@ class mail_outbox : padded<unpadded_mail_outbox> {
         // There is a first item in the mailbox.  See if there is a second.
         // The next_in_mailbox should be read with acquire to guarantee (*second) consistency.
         if ( task_proxy* second = curr->next_in_mailbox.load(std::memory_order_acquire) ) {
+            __TBB_VERIF_POINT(vp_mailbox_pop, this, 2);
             // There are at least two items, so first item can be popped easily.
             prev_ptr->store(second, std::memory_order_relaxed);
         } else {
+            __TBB_VERIF_POINT(vp_mailbox_pop, this, 1);
             // There is only one item. Some care is required to pop it.
 
             prev_ptr->store(nullptr, std::memory_order_relaxed);
@@ -160,6 +165,7 @@ public:
         assert_pointer_valid(t);
         t->next_in_mailbox.store(nullptr, std::memory_order_relaxed);
         atomic_proxy_ptr* const link = my_last.exchange(&t->next_in_mailbox);
+        __TBB_VERIF_POINT(vp_mailbox_push_linked, this, 0);
         // Logically, the release fence is not required because the exchange above provides the
         // release-acquire semantic that guarantees that (*t) will be consistent when another thread
         // loads the link atomic. However, C++11 memory model guarantees consistency of(*t) only
